@@ -288,9 +288,14 @@ SPECIAL_SLOTS = [
     # a generator expression that is the only argument shares the call's parentheses: they are not its own
     ('ff({})', 'value.args[0]', 'ii for ii in xx', 'SOLO'), ('rr = gg(kk)({})(yy)', 'value.func.args[0]', 'ii for ii in xx', 'SOLO'),
     ('tt = [ee for ee in ff({})]', 'value.generators[0].iter.args[0]', 'ii for ii in xx', 'SOLO'), ('ff({}, bb)', 'value.args[0]', '(ii for ii in xx)', 'SOLO'), ('ff(({}))', 'value.args[0]', 'ii for ii in xx', 'SOLO'),
+    # pattern slots that no bracket encloses: a value pattern can break lines (attribute chains, implicit string concatenation, complex / signed numbers)
+    ('match ss:\n case {}: pass', 'cases[0].pattern', 'zz', 'PAT'), ('match ss:\n case {} | yy: pass', 'cases[0].pattern.patterns[0]', 'zz', 'PAT'), ('match ss:\n case xx | {}: pass', 'cases[0].pattern.patterns[1]', 'zz', 'PAT'),
+    ('match ss:\n case {}, yy: pass', 'cases[0].pattern.patterns[0]', 'zz', 'PAT'), ('match ss:\n case {} as ww: pass', 'cases[0].pattern.pattern', 'zz', 'PAT'), ('match ss:\n case [{}, yy]: pass', 'cases[0].pattern.patterns[0]', 'zz', 'PAT'),
+    ('match ss:\n case CC(kk={}): pass', 'cases[0].pattern.kwd_patterns[0]', 'zz', 'PAT'), ('match ss:\n case {} if gg: pass', 'cases[0].pattern', 'zz', 'PAT'),
     ("t = f'{{ {}!r:>9 }}'", 'value.values[0].value', 'zz', 'FSTR'), ("t = f'{{ [aa, {}] }}'", 'value.values[0].value.elts[1]', 'zz', 'FSTR'), ("t = f'{{ aa or {} }}'", 'value.values[0].value.values[1]', 'zz', 'FSTR'),
 ]
 SPECIAL_REPL = {
+    'PAT': ['aa\n.bb', '"aa"\n"bb"', '1+\n2j', '-\n1', '(aa\n.bb)', 'aa.bb', '(aa.bb)', '-1', 'aa |\nbb', '(aa |\nbb)', 'CC(\n)', '[aa,\n bb]', 'aa,\nbb', '{1: aa,\n **rr}', '"ss" # c\n"tt"', 'aa \\\n.bb'],
     'SOLO': ['(aa + bb)', '(aa or bb)', 'aa', '(aa)', '(aa,\n bb)', '(jj for jj in yy)', 'lambda: zz', '(lambda: zz)', '*ss', '(aa if bb else cc)', 'aa if bb else cc', '(aa +\n bb)', '(aa := bb)', '"s"\n "t"'],
     'STAR': ['*xx or yy', '*xx\n.yy', '*xx', '*(xx | yy)', '*(xx |\n yy)', '*(xx or yy)', '*(xx |  # c\n yy)', '*xx.yy', '*[xx,\n yy]', '*(xx\n .yy)', '*(xx if yy else zz)', '*(xx,\n yy)', 'xx', '(xx |\n yy)'],
     'GLUE': ['(pp +\n qq)', 'gg(pp,\n qq).rr', '(pp + \\\n qq)', 'pp', '(pp)', '[pp,\n qq]', '(pp\n .qq)', 'pp +\\\n qq', '(pp if qq else\n rr)', '"s"\\\n "t"'],
@@ -313,7 +318,10 @@ def stage_special_slots(ctx: Ctx):
             continue
         for repl in SPECIAL_REPL[fam]:
             try:
-                want_child = ast.parse(f'[\n{repl}\n]', mode='eval').body.elts[0] if fam == 'STAR' else ast.parse(f'(\n{repl}\n)', mode='eval').body
+                if fam == 'PAT':
+                    want_child = ast.parse(f'match _:\n case (\n{repl}\n): pass').body[0].cases[0].pattern
+                else:
+                    want_child = ast.parse(f'[\n{repl}\n]', mode='eval').body.elts[0] if fam == 'STAR' else ast.parse(f'(\n{repl}\n)', mode='eval').body
             except SyntaxError:
                 try:
                     want_child = ast.parse(f'_(\n{repl}\n)', mode='eval').body.args[0]     # arglike-only forms such as `*a or b`
@@ -325,7 +333,7 @@ def stage_special_slots(ctx: Ctx):
                 code = repl
                 if form != 'src':
                     try:
-                        cf = fst.FST(repl, 'expr_arglike')
+                        cf = fst.FST(repl, 'pattern' if fam == 'PAT' else 'expr_arglike')
                     except Exception:
                         continue
                     code = cf if form == 'fst' else cf.a
